@@ -17,7 +17,7 @@ CLAIMED = {
     "C17": dict(
         category="model_checking",
         technique="TLA+ spec NuSpaceSim.tla (pipeline, staged writer, crash/failure) model-checked by TLC; TLC-enumerated (configuration, crash point) fault plan realised on compute(); every run validated as a trace (TraceNuSpaceSim.tla)",
-        text="NuSpaceSim.tla models stages enabled by data dependencies, the two-step staged writer (mutate, rewrite), stage failure and process death; TLC checks DiskIsMemAtBoundary / DiskIsPrefix / NoWriteWhenDisabled / FileOnlyGrows over all 32 configurations x all linearisations x all crash points (3e5 states). The fault plan printed by TLC is executed on the real compute(): exception at every boundary, exception inside every stage method, os._exit in a subprocess; an instrumented results table logs every mutation with the output file read back, and TLC validates each run against the model.",
+        text="NuSpaceSim.tla models stages enabled by data dependencies, the two-step staged writer (mutate, rewrite), stage failure and process death; TLC checks DiskIsMemAtBoundary / DiskIsCommitted / DiskIsPrefix / NoWriteWhenDisabled / StaleReplaced / FileOnlyGrows over all 64 configurations (incl. a file of an earlier run already at the output path) x all linearisations x all crash points (1.6e6 states). The fault plan printed by TLC is executed on the real compute(): exception at every boundary, exception inside every stage method, os._exit in a subprocess; an instrumented results table logs every mutation with the output file read back, and TLC validates each run against the model; runs with the output file named by a str / path object / other extensions, with a pre-existing file at the output path, with zero or one surviving trajectory, with and without write_stages.",
         note="Assumes: astropy's FITS reader for read-back; process death between staged-writer calls (not inside a write); header floats compared at FITS card precision (16 significant digits).",
         design="4/C17"),
     "C14": dict(
